@@ -5,6 +5,7 @@ package main
 // implementation's canonical observables.  Monitors hook into transaction and block events.
 
 import (
+	"encoding/base64"
 	"encoding/hex"
 	"fmt"
 	"sort"
@@ -20,7 +21,10 @@ import (
 	"github.com/cosmos/cosmos-sdk/x/authz"
 	banktypes "github.com/cosmos/cosmos-sdk/x/bank/types"
 	"github.com/medibloc/panacea-core/v2/app"
+	"github.com/btcsuite/btcutil/base58"
+	cmtsecp "github.com/cometbft/cometbft/crypto/secp256k1"
 	aoltypes "github.com/medibloc/panacea-core/v2/x/aol/types"
+	didtypes "github.com/medibloc/panacea-core/v2/x/did/types"
 )
 
 const feeDenom = "umed"
@@ -63,11 +67,13 @@ type Exec struct {
 	Stats    map[string]int
 	NAccts   int
 	mode     signing.SignMode
+	Docs     map[string]*didtypes.DIDDocument
+	seenK58  map[string]bool
 }
 
 func NewExec(out *Out) *Exec {
 	return &Exec{Out: out, seenAddr: map[string]bool{}, seenBech: map[string]bool{}, Stats: map[string]int{},
-		mode: signing.SignMode_SIGN_MODE_DIRECT}
+		mode: signing.SignMode_SIGN_MODE_DIRECT, Docs: map[string]*didtypes.DIDDocument{}, seenK58: map[string]bool{}}
 }
 
 func (x *Exec) Flag(clause, detail string) {
@@ -155,6 +161,26 @@ func (x *Exec) parseMsg(f []string) (ParsedMsg, error) {
 			x.declAddrString(str(5))
 		}
 		pm.Msg = &aoltypes.MsgAddRecordRequest{TopicName: str(0), Key: untok(a[1]), Value: untok(a[2]), WriterAddress: str(3), OwnerAddress: str(4), FeePayerAddress: str(5)}
+	case "did.Create", "did.Update":
+		var doc *didtypes.DIDDocument
+		if a[1] != "-" {
+			d, ok := x.Docs[a[1]]
+			if !ok {
+				return pm, fmt.Errorf("unknown document reference %s", a[1])
+			}
+			doc = d
+		}
+		pm.Args = []string{str(0), a[1], str(2), str(3), str(4)}
+		x.declAddrString(str(4))
+		if kind == "did.Create" {
+			pm.Msg = &didtypes.MsgCreateDIDRequest{Did: str(0), Document: doc, VerificationMethodId: str(2), Signature: untok(a[3]), FromAddress: str(4)}
+		} else {
+			pm.Msg = &didtypes.MsgUpdateDIDRequest{Did: str(0), Document: doc, VerificationMethodId: str(2), Signature: untok(a[3]), FromAddress: str(4)}
+		}
+	case "did.Deactivate":
+		pm.Args = []string{str(0), str(1), str(2), str(3)}
+		x.declAddrString(str(3))
+		pm.Msg = &didtypes.MsgDeactivateDIDRequest{Did: str(0), VerificationMethodId: str(1), Signature: untok(a[2]), FromAddress: str(3)}
 	case "bank.Send":
 		pm.Args = []string{str(0), str(1), a[2]}
 		x.declAddrString(str(0))
@@ -204,6 +230,17 @@ func (x *Exec) Run(lines []string) {
 		}
 		x.history = append(x.history, l)
 		switch f[0] {
+		case "DOC", "DCTX", "DCTRL", "DVM", "DREL", "DSVC":
+			x.docLine(f)
+			x.Out.Decl("%s", l)
+		case "SIGT":
+			// a claimed valid signature: re-checked with the real secp256k1 code before the model may rely on it
+			pk, msg, sig := untok(f[1]), untok(f[2]), untok(f[3])
+			if len(pk) == cmtsecp.PubKeySize && cmtsecp.PubKey(pk).VerifySignature(msg, sig) {
+				x.Out.Decl("%s", l)
+			}
+		case "KEY58":
+			// recomputed from the real base58 decoder
 		case "BLOCK":
 			n, err := strconv.ParseInt(f[1], 10, 64)
 			must(err)
@@ -289,6 +326,105 @@ func (x *Exec) Run(lines []string) {
 	}
 }
 
+func (x *Exec) declKey58(s58 string) {
+	if x.seenK58[s58] {
+		return
+	}
+	x.seenK58[s58] = true
+	dec := base58.Decode(s58)
+	if len(dec) == cmtsecp.PubKeySize {
+		x.Out.Decl("KEY58 %s %s", toks(s58), tok(dec))
+	}
+}
+
+func (x *Exec) docLine(f []string) {
+	ref := f[1]
+	vm := func(a []string) *didtypes.VerificationMethod {
+		x.declKey58(s(a[3]))
+		return &didtypes.VerificationMethod{Id: s(a[0]), Type: s(a[1]), Controller: s(a[2]), PublicKeyBase58: s(a[3])}
+	}
+	strs := func(a []string) *didtypes.JSONStringOrStrings {
+		l := didtypes.JSONStringOrStrings{}
+		for _, t := range a {
+			l = append(l, s(t))
+		}
+		return &l
+	}
+	switch f[0] {
+	case "DOC":
+		x.Docs[ref] = &didtypes.DIDDocument{Id: s(f[2])}
+	case "DCTX":
+		x.Docs[ref].Contexts = strs(f[2:])
+	case "DCTRL":
+		x.Docs[ref].Controller = strs(f[2:])
+	case "DVM":
+		x.Docs[ref].VerificationMethods = append(x.Docs[ref].VerificationMethods, vm(f[2:]))
+	case "DSVC":
+		x.Docs[ref].Services = append(x.Docs[ref].Services, &didtypes.Service{Id: s(f[2]), Type: s(f[3]), ServiceEndpoint: s(f[4])})
+	case "DREL":
+		var r didtypes.VerificationRelationship
+		if f[3] == "ref" {
+			r = didtypes.NewVerificationRelationship(s(f[4]))
+		} else {
+			r = didtypes.NewVerificationRelationshipDedicated(*vm(f[4:]))
+		}
+		d := x.Docs[ref]
+		switch f[2] {
+		case "auth":
+			d.Authentications = append(d.Authentications, r)
+		case "assert":
+			d.AssertionMethods = append(d.AssertionMethods, r)
+		case "keyagree":
+			d.KeyAgreements = append(d.KeyAgreements, r)
+		case "capinv":
+			d.CapabilityInvocations = append(d.CapabilityInvocations, r)
+		case "capdel":
+			d.CapabilityDelegations = append(d.CapabilityDelegations, r)
+		}
+	}
+}
+
+// docStr is the canonical rendering of a document (the same printer exists in Driver.v)
+func docStr(d *didtypes.DIDDocument) string {
+	if d == nil {
+		return "nil"
+	}
+	optl := func(l *didtypes.JSONStringOrStrings) string {
+		if l == nil {
+			return "none"
+		}
+		r := "L"
+		for _, v := range *l {
+			r += "," + toks(v)
+		}
+		return r
+	}
+	vmS := func(v *didtypes.VerificationMethod) string {
+		return strings.Join([]string{toks(v.Id), toks(v.Type), toks(v.Controller), toks(v.PublicKeyBase58)}, "/")
+	}
+	rels := func(l []didtypes.VerificationRelationship) string {
+		r := "L"
+		for _, v := range l {
+			if vm := v.GetVerificationMethod(); vm != nil {
+				r += ",d/" + vmS(vm)
+			} else {
+				r += ",r/" + toks(v.GetVerificationMethodId())
+			}
+		}
+		return r
+	}
+	vms := "L"
+	for _, v := range d.VerificationMethods {
+		vms += "," + vmS(v)
+	}
+	svcs := "L"
+	for _, v := range d.Services {
+		svcs += "," + strings.Join([]string{toks(v.Id), toks(v.Type), toks(v.ServiceEndpoint)}, "/")
+	}
+	return strings.Join([]string{toks(d.Id), optl(d.Contexts), optl(d.Controller), vms, rels(d.Authentications), rels(d.AssertionMethods),
+		rels(d.KeyAgreements), rels(d.CapabilityInvocations), rels(d.CapabilityDelegations), svcs}, "|")
+}
+
 func (x *Exec) genesis(f []string) {
 	n, _ := strconv.Atoi(f[2])
 	bal, ok := sdk.NewIntFromString(f[3])
@@ -339,6 +475,21 @@ func (x *Exec) query(f []string) string {
 		var r aoltypes.QueryTopicResponse
 		must(r.Unmarshal(res.Value))
 		return joinSp("Q", "ok", "T", toks(r.Topic.Description), strconv.FormatUint(r.Topic.TotalRecords, 10), strconv.FormatUint(r.Topic.TotalWriters, 10))
+	case "did.DID":
+		res := x.C.Query("/panacea.did.v2.Query/DID", &didtypes.QueryDIDRequest{DidBase64: base64Std(untok(f[2]))}, 0)
+		if res.Code != 0 {
+			c := queryErrClass(res)
+			if c == "Q err 5" {
+				if strings.Contains(res.Log, "deactivated") {
+					return "Q err 5 deactivated"
+				}
+				return "Q err 5 notfound"
+			}
+			return c
+		}
+		var r didtypes.QueryDIDResponse
+		must(r.Unmarshal(res.Value))
+		return joinSp("Q", "ok", strconv.FormatUint(r.DidDocumentWithSeq.Sequence, 10), docStr(r.DidDocumentWithSeq.Document))
 	case "aol.Writer":
 		x.declAddrString(s(f[2]))
 		x.declAddrString(s(f[4]))
@@ -385,7 +536,18 @@ func (x *Exec) dump(which string) string {
 		}
 		return "D aol " + strings.Join(parts, ";")
 	}
+	if which == "did" {
+		var parts []string
+		for _, kv := range x.C.DumpStore("did") {
+			var e didtypes.DIDDocumentWithSeq
+			must(x.C.App.AppCodec().UnmarshalLengthPrefixed(kv[1], &e))
+			parts = append(parts, hex.EncodeToString(kv[0])+"="+strconv.FormatUint(e.Sequence, 10)+":"+docStr(e.Document))
+		}
+		return "D did " + strings.Join(parts, ";")
+	}
 	panic("unknown dump " + which)
 }
 
 var _ = abci.CodeTypeOK
+
+func base64Std(b []byte) string { return base64.StdEncoding.EncodeToString(b) }
